@@ -114,7 +114,7 @@ CLAIMS = {
         note=GEOM_NOTE + "  acos, sqrt, sin and pi are libm values shared by model and implementation."),
     "C03": dict(
         engine="geom", design_ref="DESIGN.md section 4 C03",
-        technique="Coq proofs over the reals: sums over the loops and double-sum exchange for the weighting; window independence (permutation of the index window + far-image bound + triangle inequality) for cut potentials; invariance under moving the site by lattice vectors; origin shifts and uncut tails by monitor (partial)",
+        technique="Coq proofs over the reals: sums over the loops and double-sum exchange for the weighting; window independence (permutation of the index window + far-image bound + triangle inequality) for cut potentials; invariance under moving the site by lattice vectors and under moving the origin (re-indexed lattice windows, ordered-pair total); uncut tails by monitor (partial)",
         text="Theorems (reals, every state): -N*score = sum over unordered pairs of distinct copies in the cell + 1/2 sum over "
              "ordered pairs (copy, image of a copy within 3 shells), the images being exactly the lattice translates of C14; for "
              "an order-independent pair energy that is half the sum over ordered pairs of distinct molecule images - every pair "
@@ -123,8 +123,13 @@ CLAIMS = {
              "(C03_lj_score_is_infinite_lattice_sum); known finding D14 (3 shells miss in-range pairs in very flat cells) is exactly "
              "the failure of that condition.  Moving the site by whole lattice vectors (a copy across a cell face) leaves the "
              "score unchanged exactly (C03_lj_score_site_shift).  The model is compared with the implementation's score (mostly "
-             "bit-exact).  Monitored, not proved: uncut potentials against a many-shell lattice sum (measured truncation error) "
-             "and the origin moved by half lattice vectors.",
+             "bit-exact).  Moving the ORIGIN (C03_lj_score_origin_shift / C03_lj_score_moved_origin): two descriptions whose "
+             "placements have the same orientations and fractional positions differing by one common vector modulo lattice "
+             "vectors - in particular the site moved by any h that every operation fixes modulo the lattice, e.g. every half "
+             "lattice vector for the seven groups (C03_half_vectors_are_fixed) - have the same score, for like particles and a cut "
+             "potential within range; the pairs change between 'in the cell' and 'image' between the descriptions, the proof "
+             "goes through the total over ordered pairs and a re-indexing of the lattice window.  Monitored, not proved: uncut "
+             "potentials against a many-shell lattice sum (measured truncation error).",
         note=GEOM_NOTE + "  powi's multiplication order is unspecified: energies are compared within 1e-12 of the magnitude of their terms."),
     "C13": dict(
         engine="geom", design_ref="DESIGN.md section 4 C13",
